@@ -6,6 +6,7 @@ import SfxProofs.ExpAccWideC15
 import SfxProofs.PowAccWideC15
 import SfxProofs.PowAccNeg
 import SfxProofs.ExpBandC15
+import SfxProofs.PowBandC15
 /-
   C15, the exp clause — what is true and what is false of the current tree, both proved:
 
@@ -38,8 +39,14 @@ import SfxProofs.ExpBandC15
       DECIDED everywhere: it holds outside the finding's region (theorem) and fails inside it at the witness (theorem + replay).
       Non-vacuity inside the new band: I32F32 at x = 9.0 (`4·9 > 32`), `ExpBandPf.band_witness_hyp` / `band_witness_result`.
 
-  Not proved: pow for `f/4 − 1/2 < |y·ln x|` inside the region where the clause is true; powi and the conventions are in
-  SfxProps/C15.lean (`C15_partial`).
+    * `pow_holds_outside_findings` : the pow clause, word for word, for every supported type and every pair of operands with
+      `8·|y|·ulp ≤ 1` (the negation of D16's predicate) and the omitted series tail at `|y·ln x| + 1` at most `2^-24·e^(|y·ln x| + 1)`
+      (the negation of D10's predicate, taken one unit further out: the computed exponent `y·ln x` is off by less than 1 —
+      `ln` re-proved with its sharp constant 5 ulp, `PowBandPf.ln_accuracy_sharp`; the tail ratio is monotone, `PowBandPf.tail_mono`).
+      Non-vacuity outside `pow_holds_wide`: I32F32, 2^12 (`PowBandPf.band_witness_result`).
+
+  Not proved: pow where the tail predicate holds at `|y·ln x| + 1` but not at `|y·ln x|` (a strip of width 1 next to D10's region, outside
+  `pow_holds_wide`); powi and the conventions are in SfxProps/C15.lean (`C15_partial`).
 -/
 namespace Sfx.C15
 open Sfx.C12
@@ -100,6 +107,22 @@ theorem pow_holds_wide (D : Layout) (h : Supp D) (x y : Int) (hx : inRange D x) 
         (1 / (2 : ℝ) ^ 18 + |val D.f y * Real.log (val D.f x)| / (2 : ℝ) ^ 22 + 16 * |val D.f y| / (2 : ℝ) ^ D.f) * (val D.f x) ^ (val D.f y)
           + 64 / (2 : ℝ) ^ D.f :=
   PowAccPf.C15_pow_wide D h x y hx hy hsmall hY
+
+/-- the pow clause for EVERY pair of operands outside the known findings: not D16 (`8|y| ulp ≤ 1`) and not D10 (series tail at
+`|y·ln x| + 1`, one unit of margin for the error of the computed exponent) -/
+theorem pow_holds_outside_findings (D : Layout) (h : Supp D) (x y : Int) (hx : inRange D x) (hy : inRange D y)
+    (hA : 8 * |val D.f y| / (2 : ℝ) ^ D.f ≤ 1)
+    (htail : ExpAccPf.Rm (|val D.f y * Real.log (val D.f x)| + 1) D.f ≤ Real.exp (|val D.f y * Real.log (val D.f x)| + 1) / 2 ^ 24) :
+    ∀ r it dbg, 0 < x → Trans.run (Trans.pow D D x y) = .ok (some r, it) dbg →
+      |val D.f r - (val D.f x) ^ (val D.f y)| ≤
+        (1 / (2 : ℝ) ^ 18 + |val D.f y * Real.log (val D.f x)| / (2 : ℝ) ^ 22 + 16 * |val D.f y| / (2 : ℝ) ^ D.f) * (val D.f x) ^ (val D.f y)
+          + 64 / (2 : ℝ) ^ D.f :=
+  PowBandPf.C15_pow_band D h x y hx hy hA htail
+
+/-- the tail predicate is monotone: if it holds at `T` it holds at every `0 ≤ S ≤ T` (so it describes a half-line of `|x|`) -/
+theorem D10_tail_predicate_monotone (n : ℕ) {S T : ℝ} (hS : 0 ≤ S) (hST : S ≤ T)
+    (h : ExpAccPf.Rm T n ≤ Real.exp T / 2 ^ 24) : ExpAccPf.Rm S n ≤ Real.exp S / 2 ^ 24 :=
+  PowBandPf.tail_mono n hS hST h
 
 /-- the pow clause fails at `pow::<I41F23>(1 + 2^-23, −2^26)` (finding D16) -/
 theorem pow_clause_counterexample :
